@@ -102,4 +102,20 @@ REGISTRY: dict[str, dict] = {
         assumptions=["thread interleavings are sampled at API-call granularity; bytecode-level preemption inside a call is "
                      "runtime behaviour the model cannot exhibit (claimed partial)"],
     ),
+    "C18": dict(
+        modules=["C18"],
+        theorems=[T + "C18_counterexample_prefix", T + "C18_counterexample_datatype", T + "C18_counterexample_name"],
+        rule="SER with presets whose prefix (1..3), datatype (1..3) or name (8..26, nested quoted triples) table has between "
+             "one slot more and three slots fewer than ONE statement needs, surrounded by fitting statements; real bytes judged "
+             "by the Lean referee (denotation == input, or the writer raised). Non-trivial = the statement overflows a table.",
+    ),
+    "C20": dict(
+        modules=["C18"],
+        theorems=[T + "C20_counterexample", T + "C20_rejection_leaves_flow_untouched", T + "C20_clean_rejection_leaves_no_trace"],
+        rule="SERSTEP: Triple/Quad/GraphStream driven statement by statement by a catch-and-continue loop, each statement made "
+             "unencodable with probability 0.35 at a random slot by one of: unsupported term, typed literal with disabled "
+             "datatype table, short tuple, unsupported term nested in a quoted triple, unsupported graph name; flushes at "
+             "random points; real frames judged by the Lean referee against the accepted statements. Non-trivial = at least "
+             "one rejection.",
+    ),
 }
